@@ -154,23 +154,23 @@ static void check_iso(enum aws_date_format fmt, size_t frac_lo, size_t frac_hi) 
     __CPROVER_assert(dt.milliseconds == 0 && dt.utc_assumed, "ISO no milliseconds, UTC assumed");
     __CPROVER_assert(dt.tz[0] == 0 && dt.tz[1] == 0 && dt.tz[2] == 0 && dt.tz[3] == 0 && dt.tz[4] == 0 && dt.tz[5] == 0, "ISO zone text empty");
     ASSERT_VIEWS(dt);
-    if (e_date_only) CANARY("ISO date only");
-    else if (e_off > 0) CANARY("ISO positive offset");
-    else if (e_off < 0) CANARY("ISO negative offset");
-    else CANARY("ISO Z or zero offset");
-    if (frac_hi > 0 && g_p >= 17 + frac_hi) CANARY("ISO longest fraction of the range");
 }
+/* reachability canaries live in the harnesses (one source location per unit) */
+#define ISO_CANARIES_NOFRAC() do { if (e_date_only) CANARY("ISO date only"); else if (g_p <= 16) CANARY("ISO basic format with Z"); \
+    else if (e_off > 0) CANARY("ISO positive offset"); else if (e_off < 0) CANARY("ISO negative offset"); else CANARY("ISO extended format, Z or zero offset"); } while (0)
+#define ISO_CANARIES_FRAC(hi) do { if (g_p >= 17 + (hi)) CANARY("ISO longest fraction of the range"); \
+    if (e_off > 0) CANARY("ISO fraction and positive offset"); else if (e_off < 0) CANARY("ISO fraction and negative offset"); else CANARY("ISO fraction and Z or zero offset"); } while (0)
 /* the format selector is a constant per harness */
-void h_iso_ext(void) { check_iso(AWS_DATE_FORMAT_ISO_8601, 0, 0); }
-void h_iso_basic(void) { check_iso(AWS_DATE_FORMAT_ISO_8601_BASIC, 0, 0); }
-void h_iso_auto(void) { check_iso(AWS_DATE_FORMAT_AUTO_DETECT, 0, 0); }
+void h_iso_ext(void) { check_iso(AWS_DATE_FORMAT_ISO_8601, 0, 0); ISO_CANARIES_NOFRAC(); }
+void h_iso_basic(void) { check_iso(AWS_DATE_FORMAT_ISO_8601_BASIC, 0, 0); ISO_CANARIES_NOFRAC(); }
+void h_iso_auto(void) { check_iso(AWS_DATE_FORMAT_AUTO_DETECT, 0, 0); ISO_CANARIES_NOFRAC(); }
 /* fractional seconds: 1..9 digits (milli / micro / nanoseconds); longer fractions in the thorough tier */
-void h_iso_ext_frac(void) { check_iso(AWS_DATE_FORMAT_ISO_8601, 1, 9); }
-void h_iso_auto_frac(void) { check_iso(AWS_DATE_FORMAT_AUTO_DETECT, 1, 9); }
+void h_iso_ext_frac(void) { check_iso(AWS_DATE_FORMAT_ISO_8601, 1, 9); ISO_CANARIES_FRAC(9); }
+void h_iso_auto_frac(void) { check_iso(AWS_DATE_FORMAT_AUTO_DETECT, 1, 9); ISO_CANARIES_FRAC(9); }
 /* 10 .. as many digits as fit into the 100 bytes the entry point lets through (a basic-format text has 17 other bytes) */
-void h_iso_frac_10_30(void) { check_iso(AWS_DATE_FORMAT_ISO_8601, 10, 30); }
-void h_iso_frac_31_60(void) { check_iso(AWS_DATE_FORMAT_ISO_8601, 31, 60); }
-void h_iso_frac_61_83(void) { check_iso(AWS_DATE_FORMAT_ISO_8601, 61, 83); }
+void h_iso_frac_10_30(void) { check_iso(AWS_DATE_FORMAT_ISO_8601, 10, 30); ISO_CANARIES_FRAC(30); }
+void h_iso_frac_31_60(void) { check_iso(AWS_DATE_FORMAT_ISO_8601, 31, 60); ISO_CANARIES_FRAC(60); }
+void h_iso_frac_61_83(void) { check_iso(AWS_DATE_FORMAT_ISO_8601, 61, 83); ISO_CANARIES_FRAC(83); }
 
 /* ================================================================== RFC 822 ========================================
  * layout family:  [Www] ',' SP  D[D] SP Mon[letters] SP (YYYY|YY) SP hh:mm:ss SP [zone]
@@ -182,6 +182,7 @@ void h_iso_frac_61_83(void) { check_iso(AWS_DATE_FORMAT_ISO_8601, 61, 83); }
  * The variant WITHOUT "Www," (the week day is optional in RFC 822 and in the parser's own comment) is generated when
  * `weekday` is false: the text then starts with the day of month. */
 static const char k_months[] = "janfebmaraprmayjunjulaugsepoctnovdec";
+static int r_ndig, r_d0, r_d1, r_mon; /* replay variables (native reproduction of a counterexample: replay/date_time_replay.c) */
 static bool e_utc;         /* a zone was given (UTC designator or numeric offset) */
 static char e_tz[6];       /* expected zone text */
 
@@ -216,10 +217,14 @@ static void gen_rfc822(bool weekday, int zone) {
         put(',');
         put_space();
     }
-    e_mday = nondet_bool() ? put_digit() : put_2digits();
+    r_ndig = nondet_bool() ? 1 : 2;
+    r_d0 = put_digit();
+    e_mday = r_d0;
+    if (r_ndig == 2) { r_d1 = put_digit(); e_mday = 10 * r_d0 + r_d1; }
     put_space();
     e_mon = nondet_int();
     __CPROVER_assume(e_mon >= 0 && e_mon <= 11);
+    r_mon = e_mon;
     put(any_case(k_months[3 * e_mon]));
     put(any_case(k_months[3 * e_mon + 1]));
     put(any_case(k_months[3 * e_mon + 2]));
@@ -242,13 +247,12 @@ static void gen_rfc822(bool weekday, int zone) {
     if (zone == 2) gen_zone_offset();
 }
 
-static void check_rfc822(bool weekday, int zone) {
+static void check_rfc822(bool weekday, int zone, enum aws_date_format fmt) {
     reset_models();
     gen_begin();
     gen_rfc822(weekday, zone);
     struct aws_byte_cursor cur = gen_end();
     struct aws_date_time dt;
-    enum aws_date_format fmt = nondet_bool() ? AWS_DATE_FORMAT_RFC822 : AWS_DATE_FORMAT_AUTO_DETECT;
     int rc = aws_date_time_init_from_str_cursor(&dt, &cur, fmt);
     __CPROVER_assert(rc == AWS_OP_SUCCESS && g_raise_count == 0, "RFC 822 text of an accepted layout is accepted");
     if (e_utc) {
@@ -267,19 +271,18 @@ static void check_rfc822(bool weekday, int zone) {
     __CPROVER_assert(dt.tz[0] == e_tz[0] && dt.tz[1] == e_tz[1] && dt.tz[2] == e_tz[2] && dt.tz[3] == e_tz[3] && dt.tz[4] == e_tz[4] && dt.tz[5] == 0,
                      "RFC 822 zone text recorded");
     ASSERT_VIEWS(dt);
-    if (fmt == AWS_DATE_FORMAT_AUTO_DETECT) CANARY("RFC 822 auto-detected"); else CANARY("RFC 822 explicit format");
-    if (e_off < 0) CANARY("RFC 822 negative offset"); else if (e_off > 0) CANARY("RFC 822 positive offset");
-    if (g_p == AWS_DATE_TIME_STR_MAX_LEN) CANARY("RFC 822 100 bytes");
 }
-void h_rfc822_utc_names(void) { check_rfc822(true, 1); }
-void h_rfc822_offsets(void) { check_rfc822(true, 2); }
-void h_rfc822_local(void) { check_rfc822(true, 0); }
+#define RFC_CANARIES_OFFSETS() do { if (e_off < 0) CANARY("RFC 822 negative offset"); else if (e_off > 0) CANARY("RFC 822 positive offset"); else CANARY("RFC 822 zero offset"); } while (0)
+#define RFC_CANARIES_NAMES() do { if (e_tz[1] == 0) CANARY("RFC 822 Z"); else if (e_tz[2] == 0) CANARY("RFC 822 UT"); else CANARY("RFC 822 UTC / GMT"); \
+    if (g_p <= 26) CANARY("RFC 822 shortest layout (D Mon YY)"); } while (0)
+/* one unit per zone kind, explicit format; the auto-detecting entry (the ISO parser runs first and refuses) separately */
+void h_rfc822_utc_names(void) { check_rfc822(true, 1, AWS_DATE_FORMAT_RFC822); RFC_CANARIES_NAMES(); }
+void h_rfc822_offsets(void) { check_rfc822(true, 2, AWS_DATE_FORMAT_RFC822); RFC_CANARIES_OFFSETS(); }
+void h_rfc822_local(void) { check_rfc822(true, 0, AWS_DATE_FORMAT_RFC822); if (g_p <= 24) CANARY("RFC 822 without zone, shortest layout"); else CANARY("RFC 822 without zone"); }
+void h_rfc822_auto_utc_names(void) { check_rfc822(true, 1, AWS_DATE_FORMAT_AUTO_DETECT); RFC_CANARIES_NAMES(); }
+void h_rfc822_auto_offsets(void) { check_rfc822(true, 2, AWS_DATE_FORMAT_AUTO_DETECT); RFC_CANARIES_OFFSETS(); }
 /* week day omitted (RFC 822: [ day "," ] is optional) */
-void h_rfc822_no_weekday(void) {
-    int zone = nondet_int();
-    __CPROVER_assume(zone >= 0 && zone <= 2);
-    check_rfc822(false, zone);
-}
+void h_rfc822_no_weekday(void) { check_rfc822(false, 1, AWS_DATE_FORMAT_RFC822); RFC_CANARIES_NAMES(); }
 
 /* a zone NAME that is none of the designators the property lists (and does not start with 'z', which the parser reads as
  * "Zulu") is refused - it is not silently taken for UTC: 1..5 letters/digits */
@@ -302,8 +305,7 @@ void h_rfc822_unknown_zone(void) {
     __CPROVER_assume(!(nz >= 3 && LC(z[0]) == 'g' && LC(z[1]) == 'm' && LC(z[2]) == 't'));
     struct aws_byte_cursor cur = gen_end();
     struct aws_date_time dt;
-    enum aws_date_format fmt = nondet_bool() ? AWS_DATE_FORMAT_RFC822 : AWS_DATE_FORMAT_AUTO_DETECT;
-    int rc = aws_date_time_init_from_str_cursor(&dt, &cur, fmt);
+    int rc = aws_date_time_init_from_str_cursor(&dt, &cur, AWS_DATE_FORMAT_RFC822);
     __CPROVER_assert(rc == AWS_OP_ERR && g_raise_count == 1 && g_last_error == AWS_ERROR_INVALID_DATE_STR, "unknown zone name: refused with INVALID_DATE_STR");
     __CPROVER_assert(g_tg_calls == 0 && g_mk_calls == 0 && g_gm_calls == 0 && g_lt_calls == 0, "unknown zone name: no instant computed");
     if (nz == 3) CANARY("three-letter zone refused (EST)"); else if (nz == 5) CANARY("five-character zone refused"); else CANARY("other zone refused");
@@ -386,21 +388,42 @@ void h_to_utc_short_str(void) { check_to_str(1); }
 void h_to_local_str(void) { check_to_str(2); }
 void h_to_local_short_str(void) { check_to_str(3); }
 
-/* aws_date_time_init_from_str: forwards the used part of the buffer */
+/* aws_date_time_init_from_str: forwards the USED part of the buffer (len, not capacity) and the format.  Family: the eight
+ * digits of a basic date, in a buffer whose capacity is larger than its length (the bytes behind the text are arbitrary). */
 void h_init_from_str(void) {
     reset_models();
     gen_begin();
-    gen_iso(0, 3);
+    e_year = put_4digits() - 1900;
+    e_mon = put_2digits() - 1;
+    e_mday = put_2digits();
     struct aws_byte_cursor cur = gen_end();
     struct aws_byte_buf b;
     b.buffer = cur.ptr;
     b.len = cur.len;
-    b.capacity = cur.len;
+    b.capacity = nondet_size_t();
+    __CPROVER_assume(b.capacity >= b.len && b.capacity <= sizeof(g_txt));
     b.allocator = NULL;
     struct aws_date_time dt;
-    int rc = aws_date_time_init_from_str(&dt, &b, AWS_DATE_FORMAT_AUTO_DETECT);
-    __CPROVER_assert(rc == AWS_OP_SUCCESS && TM_IS(g_tg_arg, e_year, e_mon, e_mday, e_hour, e_min, e_sec) && dt.timestamp == g_tg_ret - e_off, "init_from_str: same fields and instant as the cursor form");
+    enum aws_date_format fmt = nondet_bool() ? AWS_DATE_FORMAT_ISO_8601_BASIC : AWS_DATE_FORMAT_AUTO_DETECT;
+    int rc = aws_date_time_init_from_str(&dt, &b, fmt);
+    __CPROVER_assert(rc == AWS_OP_SUCCESS && g_tg_calls == 1 && TM_IS(g_tg_arg, e_year, e_mon, e_mday, 0, 0, 0) && dt.timestamp == g_tg_ret, "init_from_str: same fields and instant as the cursor form");
+    ASSERT_VIEWS(dt);
     CANARY("init_from_str returned");
+}
+/* more than 100 bytes: refused before a byte is looked at */
+void h_init_from_str_too_long(void) {
+    reset_models();
+    struct aws_byte_buf b;
+    b.buffer = NULL;
+    b.len = nondet_size_t();
+    b.capacity = b.len;
+    b.allocator = NULL;
+    __CPROVER_assume(b.len > AWS_DATE_TIME_STR_MAX_LEN);
+    struct aws_date_time dt;
+    int rc = aws_date_time_init_from_str(&dt, &b, (enum aws_date_format)nondet_int());
+    __CPROVER_assert(rc == AWS_OP_ERR && g_raise_count == 1 && g_last_error == AWS_ERROR_OVERFLOW_DETECTED, "text longer than 100 bytes refused with OVERFLOW_DETECTED");
+    __CPROVER_assert(g_tg_calls == 0 && g_mk_calls == 0 && g_gm_calls == 0 && g_lt_calls == 0, "nothing computed");
+    CANARY("too long refused");
 }
 
 /* ================================================================== epoch views ====================================
@@ -440,10 +463,13 @@ void h_as_nanos_exact(void) {
 }
 /* instants between 2554 and 9999 do not fit 64-bit nanoseconds: the conversion saturates (clock.inl), and the view must
  * then be the saturated value UINT64_MAX - not a small number */
+static uint64_t r_timestamp, r_ms; /* replay variables */
 void h_as_nanos_to_9999(void) {
     reset_models();
     struct aws_date_time dt = any_dt();
     __CPROVER_assume(dt.timestamp >= 0 && dt.timestamp <= T_MAX_9999 && dt.milliseconds <= 1000);
+    r_timestamp = (uint64_t)dt.timestamp;
+    r_ms = dt.milliseconds;
     const uint64_t t = (uint64_t)dt.timestamp, msn = (uint64_t)dt.milliseconds * 1000000u;
     const bool fits = t <= UINT64_MAX / 1000000000u && t * 1000000000u <= UINT64_MAX - msn;
     uint64_t r = aws_date_time_as_nanos(&dt);
